@@ -36,7 +36,7 @@ GAnswers(c) ==
   CASE k = "vals" -> {[NoAnsS EXCEPT !.how = "ok", !.vals = A] : A \in GValSets} \cup err
     [] k = "duties" -> {[NoAnsS EXCEPT !.how = "ok", !.duties = R] : R \in GReal(ss[c].req.epoch, ss[c].req.idx)} \cup err
     [] k = "spec" -> {[NoAnsS EXCEPT !.how = "ok", !.spe = GSPE]} \cup err \cup {[NoAnsS EXCEPT !.how = "zero"]}
-    [] k = "block" -> {[NoAnsS EXCEPT !.how = "ok", !.blk = b] : b \in GBlocks} \cup {[NoAnsS EXCEPT !.how = "404"]} \cup err
+    [] k = "block" -> {[NoAnsS EXCEPT !.how = "ok", !.blk = b] : b \in GBlocks} \cup {[NoAnsS EXCEPT !.how = "404"], [NoAnsS EXCEPT !.how = "500"]} \cup err
     [] k = "prop" -> {[NoAnsS EXCEPT !.how = "ok", !.tok = 5]} \cup err
     [] OTHER -> {[NoAnsS EXCEPT !.how = "ok"]} \cup err
 \* errors are rarer than answers
